@@ -827,6 +827,8 @@ class Ctx:
             return ("PredicateErrs", [self.predref(p) for p in e.predicates])
         if te is U.CustomErr:
             return ("CustomErr", N(e.id))
+        if te.__name__ == "SerializableErr":
+            return ("CustomErr", N(100))
         raise HarnessError(f"errtype {e!r}")
 
     def invalid(self, inv: Any):
